@@ -92,6 +92,23 @@ def exclusive(e1, e2):
     return False
 
 
+def split_writes(events, key='value'):
+    """Events whose `key` term is a conditional (ite / phi) are replaced by one pseudo-event per leaf, guarded by the conditions
+    taken - `x = a if c else b; write(x)` and `if c: write(a) else: write(b)` then look the same to a rule."""
+    out = []
+
+    def rec(ev, v, guards, excl):
+        if isinstance(v, tuple) and v and v[0] in ('ite', 'phi') and len(v) == 4:
+            bid = ('split', ev.idx, repr(v[1]))
+            rec(ev, v[2], guards + ((v[1], True, bid),), excl + ((bid, 0),))
+            rec(ev, v[3], guards + ((v[1], False, bid),), excl + ((bid, 1),))
+        else:
+            out.append(Event(ev.kind, dict(ev.d, **{key: v}), guards, ev.loops, ev.idx, ev.node, excl))
+    for ev in events:
+        rec(ev, ev.d.get(key), tuple(ev.guards), tuple(ev.excl))
+    return out
+
+
 def stale_reads(tr, allow=None):
     """(read event, write event) pairs: a register read that follows a register write on some path and may name the
     same register (not two different constants; re-reading the very index just written is a deliberate read-back)."""
@@ -263,8 +280,36 @@ class Walker:
                 out.add(n.id)
         return out
 
+    def loop_elements(self, it):
+        """Element terms of a small constant iteration (literal tuple/list, constant range, zip of such), else None."""
+        if it[0] == 'tuple':
+            return list(it[1]) if len(it[1]) <= 8 else None
+        if it[0] == 'builtin' and it[1] == 'range' and all(a[0] == 'const' and isinstance(a[1], int) for a in it[2]) and it[2]:
+            r = range(*[a[1] for a in it[2]])
+            return [const(v) for v in r] if len(r) <= 8 else None
+        if it[0] == 'builtin' and it[1] == 'zip':
+            parts = [self.loop_elements(a) for a in it[2]]
+            if parts and all(p is not None for p in parts):
+                return [('tuple', list(x)) for x in zip(*parts)]
+        if it[0] == 'builtin' and it[1] in ('reversed', 'tuple', 'list') and len(it[2]) == 1:
+            p = self.loop_elements(it[2][0])
+            if p is not None:
+                return list(reversed(p)) if it[1] == 'reversed' else p
+        if it[0] == 'builtin' and it[1] == 'enumerate' and len(it[2]) == 1:
+            p = self.loop_elements(it[2][0])
+            if p is not None:
+                return [('tuple', [const(i), x]) for i, x in enumerate(p)]
+        return None
+
     def for_stmt(self, s, env):
         it = self.expr(s.iter, env)
+        elems = self.loop_elements(it)
+        if elems is not None and not s.orelse and not any(isinstance(n, (ast.Break, ast.Continue)) for n in ast.walk(s)):
+            # a loop over a handful of constants is the same as its unrolled body
+            for el in elems:
+                self.assign(s.target, el, env, s)
+                self.block(s.body, env)
+            return
         lid = self.fresh()
         var = s.target.id if isinstance(s.target, ast.Name) else ast.unparse(s.target)
         carried = self.assigned_names(s.body) - {var}
@@ -366,6 +411,9 @@ class Walker:
     def project(self, v, k):
         if v[0] == 'tuple' and k < len(v[1]):
             return v[1][k]
+        if v[0] in ('ite', 'phi') and all(isinstance(b, tuple) and b and b[0] in ('tuple', 'ite', 'phi') for b in v[2:4]):
+            # (a, b) if c else (d, e): the projection goes inside the conditional
+            return (v[0], v[1], self.project(v[2], k), self.project(v[3], k))
         return ('proj', v, k)
 
     def store_proc(self, chain, v, node):
@@ -436,6 +484,11 @@ class Walker:
                 if r[0] == 'const':
                     if isinstance(r[2], ast.Constant):
                         return const(r[2].value)
+                    if isinstance(r[2], (ast.Tuple, ast.List)) and all(isinstance(x, ast.Constant) or (
+                            isinstance(x, (ast.Tuple, ast.List)) and all(isinstance(y, ast.Constant) for y in x.elts)) for x in r[2].elts):
+                        # immutable module-level table of literals
+                        return ('tuple', [const(x.value) if isinstance(x, ast.Constant) else ('tuple', [const(y.value) for y in x.elts])
+                                          for x in r[2].elts])
                     return ('global', r[1].name, e.id)
                 if r[0] == 'external':
                     return ('external', r[1])
@@ -549,6 +602,11 @@ class Walker:
                 # method of the opcode itself: inline (bounded)
                 m = self.cls.find_method(p[1][-1]) if (self.cls and len(p[1]) == 1) else None
                 if m is not None and self.depth < 3:
+                    decos = {ast.unparse(d) for d in m.node.decorator_list}
+                    if 'staticmethod' in decos:
+                        return self.inline(m, args, kwargs, node)
+                    if 'classmethod' in decos:
+                        return self.inline(m, [('classref', self.cls.name)] + args, kwargs, node)
                     return self.inline(m, [('self',)] + args, kwargs, node)
                 return ('selfcall', '.'.join(p[1]), tuple(args))
             if p is not None and p[0] in env:
@@ -628,7 +686,19 @@ class Walker:
             ev.kind = 'InlinedReturn'
         if len(rets) == 1:
             return rets[0].d['value']
-        return ('inlined', fi.qualname, tuple(ev.d['value'] for ev in rets))
+        if not rets:
+            return const(None)
+        # several return points: a conditional value over the guards each return sits under (relative to the call site)
+        depth0 = len(self.guards)
+        value = rets[-1].d['value']
+        for ev in reversed(rets[:-1]):
+            extra = ev.guards[depth0:]
+            if not extra:
+                return ('inlined', fi.qualname, tuple(e.d['value'] for e in rets))
+            conds = [t if pol else ('not', t) for t, pol, _ in extra]
+            c = conds[0] if len(conds) == 1 else ('and', conds)
+            value = ('ite', c, ev.d['value'], value)
+        return value
 
     def proc_call(self, chain, args, kwargs, node, e):
         name = chain[-1]
